@@ -31,6 +31,12 @@ def corpus() -> list[dict]:
     e = sig_case([("x", "a b")], [(2, 3)], ret="a b", retval=(2, 3))
     e["retval"] = dict(V_NONE)
     c.append(e)
+    # every spelling of an optional hint means the same
+    for sp in ("Optional", "T|None", "None|T", "Union[None,T]", "Union[T,None]"):
+        for val in ((2,), (2, 3), None):
+            o = sig_case([("x", "a b?"), ("y", "a")], [val, (2,)])
+            o["params"][0]["hint"]["spell"] = sp
+            c.append(o)
     # unions with alternatives other than None
     for alts, none in ((["ann", "plain"], False), (["ann", "ann"], False), (["ann", "plain"], True)):
         u = sig_case([("x", "a b")], [(2, 3)])
